@@ -48,6 +48,11 @@ def decreases(m):
     pass
 
 
+def check(c, msg=None):
+    if not c:
+        raise ContractViolation("ghost assertion false")
+
+
 def use(name, *args):
     ar, build, native, grid = LEMMAS[name]
     if not native(*args):
@@ -208,6 +213,13 @@ def fields(**kw):
         REG.fields[k] = v
 
 
+def tuple_fields(**kw):
+    """Names of the positions of fixed-arity sequence types (namedtuples): slice.Y is slice[0]."""
+    if not hasattr(REG, "tuple_fields"):
+        REG.tuple_fields = {}
+    REG.tuple_fields.update(kw)
+
+
 def fields_dict(d):
     fields(**d)
 
@@ -340,6 +352,11 @@ class Contract(object):
         self.raises_exact_names = None if rx is True else (set(rx) if rx else set())
         self.raises_exact = bool(rx)
         self.trusted = g("trusted", None)  # reason string: contract assumed, body not verified
+        # bounded_ensures: postconditions that are only checked natively (bounded stand-in), never assumed at call sites and
+        # never counted as proved; bounded_only: reason string - the body is outside the verified subset, the whole contract
+        # is checked natively only
+        self.bounded_ensures = [_parse(s) for s in g("bounded_ensures", [])]
+        self.bounded_only = g("bounded_only", None)
         self.ghost = {k: [_parse(x) for x in v] for k, v in g("ghost", {}).items()}
         self.str_domains = dict(g("str_domains", {}))
         self.split_on = list(g("split_on", []))
